@@ -13,7 +13,7 @@ ViewsV(g, v, lin) ==       \* lin = FALSE for GCP boxes: the class offers no lab
   ELSE IF v.rt # [i \in 1..4 |-> <<Corners(g)[i][1] * DEN, Corners(g)[i][2] * DEN>>] THEN "wld2pix_is_not_the_inverse_of_pix2wld"
   ELSE IF SeqSet(v.extent) # SeqSet(P) THEN "footprint_is_not_the_image_of_the_pixel_rectangle"
   ELSE IF v.bbox # BBoxOf(g) THEN "bounding_box_is_not_the_image_of_the_pixel_rectangle"
-  ELSE IF ~lin THEN "ok"
+  ELSE IF ~lin THEN (IF AxisAligned(g.A) /\ v.res # <<>> /\ v.res # <<g.A[1], g.A[5]>> THEN "resolution_is_not_the_pixel_size" ELSE "ok")     \* a GCP box offers a resolution, no labels
   ELSE IF AxisAligned(g.A) /\ v.xs # <<2 * g.A[3] + g.A[1], 2 * g.A[3] + g.A[1] + 2 * g.A[1] * (g.w - 1), g.w>> THEN "x_labels_are_not_pixel_centres"
   ELSE IF AxisAligned(g.A) /\ v.ys # <<2 * g.A[6] + g.A[5], 2 * g.A[6] + g.A[5] + 2 * g.A[5] * (g.h - 1), g.h>> THEN "y_labels_are_not_pixel_centres"
   ELSE IF AxisAligned(g.A) /\ v.res # <<g.A[1], g.A[5]>> THEN "resolution_is_not_the_pixel_size"
